@@ -85,6 +85,7 @@ def C01(F, rep, tier, cx):
     RP.T2(F, rep, cx.R, cx.FL, ws)
     RP.K7(F, rep, cx.R, ws)        # one role per side of a stage: a second thread that drops or delivers data breaks the reader's step-back
     RF.F8(F, rep, cx.FL)           # the pieces of a container reach the file in the order they were written
+    RF.M1(F, rep, cx.R)            # whatever companion flags the open mode carries, the session gets its workers (round 7)
 
 
 def C02(F, rep, tier, cx):
@@ -225,6 +226,7 @@ def C06(F, rep, tier, cx):
     RF.K12(F, rep, cx.R, cx.FL)  # a write-mode worker stops only when its input has ended (else its producer blocks on a buffer nobody empties)
     RP.K15(F, rep, cx.R)         # abort is final: a released waiter does not re-arm the stage
     RP.K7(F, rep, cx.R, ws)      # one role per side of a stage: data released by a second thread is gone when the reader steps back (it then spins)
+    RF.T1(F, rep, cx.FL)         # the decode loop advances: a guard that admits a size below the header lets read() spin on one object (round 7)
 
 
 def C07(F, rep, tier, cx):
@@ -249,6 +251,7 @@ def C07(F, rep, tier, cx):
     RF.S4(F, rep)   # the get position after a seek is a function of the request and the declared end, never of how far the producer got
     RF.G1(F, rep)           # nothing is shared between the sessions of two File objects (a static peek header makes each depend on the other's timing)
     RF.K13(F, rep, cx.R)    # no worker aborts a stage: where the other worker is cut off would depend on how far it got
+    RP.K6(F, rep, cx.R, cx.FL, ws)   # close() releases every waiter before it joins: otherwise whether it returns depends on where the worker was (round 7)
 
 
 def C08(F, rep, tier, cx):
@@ -356,6 +359,8 @@ def C13(F, rep, tier, cx):
     RF.M1(F, rep, cx.R)                           # close() recognises the session open() started, whatever companion flags the mode carries
     RF.O6(F, rep, cx.R)                           # ... and finds it still open: no worker closes the file
     RF.S1e(F, rep, cx.FL)                         # a worker caught by close() inside the signature search leaves it on the failed stream (fix 4842e88)
+    RF.R2(F, rep, cx.FL)                          # ... and an aborted read reports eof|fail, which is what ends that search (round 7)
+    RP.T2(F, rep, cx.R, cx.FL, cx.ws())           # close() of a write session joins workers that can always make progress (round 7)
 
 
 def C14(F, rep, tier, cx):
